@@ -414,7 +414,25 @@ struct Runner {
             const vx::ScriptItem &it = items[k];
             if (it.tag == 'R') { reset(it, (long)k); continue; }
             if (g_exec < skip || !box) continue;
-            if (it.tag == 'P') { log_state("pre", (long)k, true); g_cur = (long)k; continue; }
+            if (it.tag == 'P') {
+                // the state line is written by this process; the queries on it run in a
+                // child (a second 'pre' line), so that a crash inside a query is contained
+                log_state("pre", (long)k, false); g_cur = (long)k;
+                if (qlevel > 0) {
+                    fflush(stdout);
+                    pid_t pid = fork();
+                    if (pid < 0) { perror("fork"); exit(3); }
+                    if (pid == 0) { log_state("pre", (long)k, true); fflush(stdout); _exit(0); }
+                    int st = 0; waitpid(pid, &st, 0);
+                    if (!(WIFEXITED(st) && WEXITSTATUS(st) == 0)) {
+                        Json j; j.begin_obj(); j.kv("e", "branch_died"); j.kv("x", (long long)g_exec);
+                        j.kv("sid", (long long)k); j.kv("psid", (long long)g_cur);
+                        j.kv("status", (long long)(WIFEXITED(st) ? WEXITSTATUS(st) : 1000 + WTERMSIG(st)));
+                        j.end_obj(); vx::emit(j);
+                    }
+                }
+                continue;
+            }
             if (it.tag == 'C') { call(it.call, (long)k); continue; }
             if (it.tag == 'E') continue;
             if (it.tag == 'B') {
